@@ -492,6 +492,45 @@ def main(tier):
         raise MachineryError(f"case table incomplete: {kinds}, {len(scen)} scenario classes")
     if 2 * (len(cases) + len(scen)) > res.distinct:
         raise MachineryError("more emitted records than generator states")
+    # ---- the count triples of the P, G, R lemmas (total <= 12) replayed as axis-aligned textures of m copies of every
+    # grain (PgrScaleFree: the proportions decide), m = 1, 11, 50, 128 - up to 1536 grains - handed over as float64 and,
+    # being exactly representable there, as int8 / int16 / int32 / int64 / float32 arrays
+    pgrs = parse_printed_json(res.output, "PGR")
+    pd = quiet_pydrex()
+    pgrs.sort(key=lambda c: json.dumps(c["c"]))
+    if len(pgrs) != 454:
+        raise MachineryError(f"{len(pgrs)} count triples instead of 454")
+    CUBE = {0: np.eye(3), 1: np.array([[0.0, 1, 0], [-1, 0, 0], [0, 0, 1]]), 2: np.array([[0.0, 0, 1], [0, 1, 0], [-1, 0, 0]])}
+    DT = (np.float64, np.int8, np.int16, np.int32, np.int64, np.float32)
+    for j, rec in enumerate(pgrs):
+        if quick and j % 3:
+            continue
+        c = rec["c"]
+        exp = [_q(x) for x in rec["pgr"]]
+        for mi, mult in enumerate((1, 11, 50, 128)):
+            if quick and (j // 3 + mi) % 2:
+                continue
+            # crystal axis a (row 0) along x / y / z for c[0] / c[1] / c[2] grains (times the multiplier); the other rows follow
+            o = np.concatenate([np.repeat(CUBE[k][None, :, :], mult * c[k], axis=0) for k in range(3)])
+            dt = DT[(j + mi) % len(DT)]
+            arr = o.astype(dt)
+            chk.count(("pgr-scaled", json.dumps(c), mult, dt.__name__))
+            try:
+                got = tuple(float(x) for x in pd.diagnostics.symmetry_pgr(arr, axis="a"))
+                ok, dev = _close(got, exp)
+                if not ok:
+                    chk.violation(dict(level="exact", clause="pgr-value", axis="a", texture="axis-aligned-counts", dtype=dt.__name__ if dt is not np.float64 else "float64"),
+                                  f"symmetry_pgr(axis=a) = {got} on {mult} copies of the count triple {c} handed over as {dt.__name__}; the specification gives {exp}", dict(kind="pgr-scaled", c=c, mult=mult, dtype=dt.__name__))
+                kmax = [k for k in range(3) if c[k] == max(c)]
+                if len(kmax) == 1:
+                    v = np.asarray(pd.diagnostics.bingham_average(arr, axis="a"), dtype=float).reshape(-1)
+                    e = np.zeros(3); e[kmax[0]] = 1.0
+                    if not (v.shape == (3,) and np.all(np.isfinite(v)) and min(np.abs(v - e).max(), np.abs(v + e).max()) < 1e-9):
+                        chk.violation(dict(level="exact", clause="mean-axis", axis="a", texture="axis-aligned-counts", dtype=dt.__name__ if dt is not np.float64 else "float64"),
+                                      f"bingham_average(axis=a) = {v.tolist()} on {mult} copies of the count triple {c} handed over as {dt.__name__}; the specification gives +-{e.tolist()}", dict(kind="pgr-scaled", c=c, mult=mult, dtype=dt.__name__))
+            except Exception as ex:  # noqa: BLE001
+                chk.violation(dict(level="exact", clause="raised", call="symmetry_pgr/bingham_average", exc=type(ex).__name__), f"{ex!r} on {mult} copies of the count triple {c} handed over as {dt.__name__}", dict(kind="pgr-scaled", c=c, mult=mult, dtype=dt.__name__))
+
     neg = run_tlc("Diagnostics", "DiagnosticsNeg", workers=2, timeout=200, expect_violation=True)
     chk.add_tlc("DiagnosticsNeg", neg, "non-vacuity: the column-scatter 'lemma' must be refuted")
     chk.control("tlc-refutes-column-scatter-lemma", neg.violated == "NegColumnScatter", str(neg.violated))
